@@ -174,7 +174,7 @@ def main(argv):
     rep.assumptions = ["ref_do / ref_gls (validated on all repository KATs for signatures and ECDH)"]
     try:
         if a.tier == "quick":
-            cfgs = (a.configs.split(",") if a.configs else ["default", "w32", "clmul"])
+            cfgs = (a.configs.split(",") if a.configs else ["default", "w32", "clmul", "zz32"])
             n = int(6000 * a.scale)
         else:
             cfgs = (a.configs.split(",") if a.configs else ALL_CONFIGS)
